@@ -7,7 +7,7 @@ from ..common import Fr, sha
 
 OPTS = {"methods": ["MS", "SS", "DC"], "intgs": ["rk", "expl_euler"], "N_max": 4, "M_max": 2, "deg_max": 3,
         "p_param": 0.8, "p_var": 0.3, "p_paramT": 0.35, "p_freeT": 0.1, "nc_min": 1, "nc_max": 3,
-        "no_min": 1, "no_max": 2, "intc": True}
+        "no_min": 1, "no_max": 2, "intc": True, "p_param_mat": 0.3}
 OPTS_T = dict(OPTS, N_max=6, M_max=3)
 
 
@@ -52,6 +52,15 @@ def fold_point(pt):
 
 
 class C09Prop(NlpProp):
+    def gen_cases(self, *a, **k):
+        out = NlpProp.gen_cases(self, *a, **k)
+        for i, (c, p) in enumerate(out):
+            # every third case sets its global parameters in one call through a simple concatenation
+            # (ocp.set_value(horzcat(A, B, ...), horzcat(VA, VB, ...)), matrices included)
+            if i % 3 == 1:
+                c["param_cat"] = True
+        return out
+
     def run(self, tier="quick", seed=0, jobs=16):
         res = NlpProp.run(self, tier, seed, jobs)
         # metamorphic oracle on rockit alone: parametric case vs constant-folded case
